@@ -478,7 +478,7 @@ def main(args: Any) -> int:
             c15_ir = None  # type: ignore[assignment]
         if c15_ir is not None:
             c15_ir.run(rep, args.tier)
-    if only is not None and "K3" in only:  # not part of the registered run: the snap-step query is decided in 47 s on one run and not within 120 s on another
+    if only is None or "K3" in only:
         from vf import c15_float
 
         c15_float.run(rep, args.tier)
